@@ -33,6 +33,8 @@ import (
 
 	"github.com/pgavlin/dawn/diff"
 	"github.com/pgavlin/dawn/internal/zzverif/sched"
+	starlark_os "github.com/pgavlin/dawn/lib/os"
+	starlark_sh "github.com/pgavlin/dawn/lib/sh"
 	"github.com/pgavlin/dawn/label"
 	"go.starlark.net/starlark"
 )
@@ -146,6 +148,10 @@ func bValue(class string, ver int) string {
 	case "dictorder":
 		// the same mapping written in another order (equal as values, printed differently)
 		seq := []string{"{\"a\": 1, \"b\": 2}", "{\"b\": 2, \"a\": 1}", "{\"a\": 1, \"b\": 2, \"c\": 3}", "{\"c\": 3, \"a\": 1, \"b\": 2}"}
+		return seq[(ver-1)%len(seq)]
+	case "zeropair":
+		// values that are equal as Go map keys yet different values: the two zeros side by side
+		seq := []string{"(0.0, 0.0)", "(0.0, -0.0)", "(-0.0, -0.0)", "(-0.0, 0.0)", "(0, 0.0, -0.0)", "(0, -0.0, 0.0)"}
 		return seq[(ver-1)%len(seq)]
 	case "intfloat":
 		// the same number as an int and as a float: equal in Starlark, printed differently
@@ -333,6 +339,9 @@ func (w *bWorld) writeBuildFiles() error {
 				fmt.Fprintf(&b, "@target(%s)\ndef _%s():\n%s    vexec(%q, V_%s)\n\n", args, n, doc, n, n)
 			case "modfn":
 				fmt.Fprintf(&b, "@target(%s)\ndef _%s():\n%s    vexec(%q, h_%s())\n\n", args, n, doc, n, n)
+			case "stdlib":
+				// the body names several members of the predeclared modules
+				fmt.Fprintf(&b, "K_%s = %s\n@target(%s)\ndef _%s():\n%s    p = os.path.join(\"a\", os.path.base(\"x/b\"))\n    q = os.path.dir(p) + os.path.sep\n    e = os.exists(\"no-such-file-\" + p) or os.path.is_abs(q) or os.path.splitext(p)[1] != \"\" or sh.exec == sh.output or os.getcwd == None\n    vexec(%q, K_%s if not e else None)\n\n", n, val, args, n, doc, n, n)
 			default: // global
 				fmt.Fprintf(&b, "K_%s = %s\n@target(%s)\ndef _%s():\n%s    vexec(%q, K_%s)\n\n", n, val, args, n, doc, n, n)
 			}
@@ -724,7 +733,7 @@ func (w *bWorld) options() *LoadOptions {
 	return &LoadOptions{
 		Args:     w.flagArgs(),
 		Events:   &bEvents{w: w},
-		Builtins: starlark.StringDict{"vexec": starlark.NewBuiltin("vexec", w.vexec)},
+		Builtins: starlark.StringDict{"vexec": starlark.NewBuiltin("vexec", w.vexec), "os": starlark_os.Module, "sh": starlark_sh.Module},
 	}
 }
 
